@@ -38,8 +38,8 @@ static inline uint32_t ref_log2_asc(uint64_t v) { // v != 0
   while (v >>= 1) ++r;
   return r;
 }
-static inline int32_t ref_ctz(uint64_t v) { // v != 0
-  int32_t r = 0;
+static inline int32_t ref_ctz(uint64_t v, int from = 0) { // v != 0, all bits below `from` are zero
+  int32_t r = from;
   while (!((v >> r) & 1)) ++r;
   return r;
 }
@@ -80,7 +80,12 @@ struct Local { // per-thread accumulation, merged in partition order
 
 // All checks for one 32-bit input (both the 32-bit overloads and the 64-bit functions on the widened value).
 // `deep` adds the second, independent (ascending) reference definitions.
-static inline void check32(uint32_t v, bool deep, Local& L) {
+static uint8_t g_pop16[65536]; // popcount of every 16-bit value, filled in main with the 16-step loop ref_pop(v,16)
+
+// thorough: second reference definitions + cheap wrappers + log2const on every v.  st: v is a 32-bit member of
+// the structured set (phase 2 hands those to phase 1 so that every (function, input) pair is run once): everything.
+static inline void check32(uint32_t v, bool thorough, bool st, Local& L) {
+  const bool deep = thorough || st;
   const uint64_t w = v;
   const bool nt = (v & (v - 1)) != 0; // non-trivial: neither 0 nor a power of two
   uint64_t n = 0;
@@ -88,29 +93,44 @@ static inline void check32(uint32_t v, bool deep, Local& L) {
     uint32_t want = ref_log2_desc(v, 31);
     uint32_t g;
     if ((g = dd::log2(v)) != want) L.fail("detail::log2(uint32_t)", "u32", v, g, want);
-    if ((g = dd::log2const(v)) != want) L.fail("detail::log2const(uint32_t)", "u32", v, g, want);
     if ((g = dd::log2(w)) != want) L.fail("detail::log2(uint64_t)", "u32", v, g, want);
-    if ((g = dd::log2const(w)) != want) L.fail("detail::log2const(uint64_t)", "u32", v, g, want);
+    // log2const costs ~20 ns per call under ASan+UBSan at -O1 (two local tables are copied and poisoned on
+    // every call), i.e. 2^32 calls = 86 CPU-s per overload.  With both overloads on all 2^32 the quick tier
+    // measured 49..71 s wall on the loaded 16-vCPU machine, so quick enumerates log2const on every v < 2^26
+    // (plus, in phase 2, every b<<s for the structured 32-bit b, which includes all b < 2^16) and thorough
+    // enumerates all 2^32 for both overloads.
+    if (deep || v < (1u << 26)) {
+      if ((g = dd::log2const(v)) != want) L.fail("detail::log2const(uint32_t)", "u32", v, g, want);
+      if ((g = dd::log2const(w)) != want) L.fail("detail::log2const(uint64_t)", "u32", v, g, want);
+      n += 2;
+    }
     int32_t cz = ref_ctz(w);
     int32_t gz;
     if ((gz = dd::countTrailingZeros(w)) != cz) L.fail("detail::countTrailingZeros", "u32", v, (uint64_t)gz, (uint64_t)cz);
-    n += 5;
+    n += 3;
     if (deep) {
       uint32_t want2 = ref_log2_asc(w);
       if (want2 != want) L.fail("reference log2 (asc vs desc) disagree", "u32", v, want2, want);
       if ((g = dispenso::log2(w)) != want2) L.fail("dispenso::log2", "u32", v, g, want2);
-      if ((g = dispenso::log2const(w)) != want2) L.fail("dispenso::log2const", "u32", v, g, want2);
       if ((g = dd::log2((unsigned long long)v)) != want2) L.fail("detail::log2<unsigned long long>", "u32", v, g, want2);
-      if ((g = dd::log2const((unsigned long long)v)) != want2)
-        L.fail("detail::log2const<unsigned long long>", "u32", v, g, want2);
-      n += 4;
+      n += 2;
+    }
+    if (st || v < (1u << 24)) { // forwarding wrappers of log2const (20 ns each): low 2^24 values + the structured set
+      if ((g = dispenso::log2const(w)) != want) L.fail("dispenso::log2const", "u32", v, g, want);
+      if ((g = dd::log2const((unsigned long long)v)) != want) L.fail("detail::log2const<unsigned long long>", "u32", v, g, want);
+      n += 2;
     }
   }
   {
-    int32_t want = ref_pop(w, 32);
+    // popcount is additive over the two half-words; each half is looked up in the loop-built table
+    int32_t want = (int32_t)g_pop16[v >> 16] + (int32_t)g_pop16[v & 0xffff];
     int32_t g = dd::countSetBits(w);
     if (g != want) L.fail("detail::countSetBits", "u32", v, (uint64_t)g, (uint64_t)want);
     n++;
+    if (deep) {
+      int32_t want2 = ref_pop(w, 32);
+      if (want2 != want) L.fail("reference popcount (table vs 32-step loop) disagree", "u32", v, (uint64_t)want2, (uint64_t)want);
+    }
   }
   {
     uint64_t want = v ? ref_np2_desc(w, 32) : 0; // documented: returns 0 for 0
@@ -138,37 +158,43 @@ static inline void check32(uint32_t v, bool deep, Local& L) {
   if (nt) L.nontrivial += n;
 }
 
-// All checks for one 64-bit input.  Always uses both reference definitions (the set is small in quick; in
-// thorough the cheap path `deep=false` is used for the 2^36 windowed values).
-static inline void check64(uint64_t x, bool deep, Local& L) {
+// All checks for one 64-bit input.  deep=true: both reference definitions, public wrappers, template overloads
+// (used for the structured set).  deep=false is the lean path for the 2^36 windowed values of the thorough tier:
+// no log2const (20 ns per call under ASan; it gets its own sweep in phase 3b) and popcount from the 16-bit table.
+// lowhint/tophint: by construction of x all bits below lowhint and above tophint are zero (0/63 when unknown);
+// the reference scans start there instead of at 0/63.
+static inline void check64(uint64_t x, bool deep, Local& L, int lowhint = 0, int tophint = 63) {
   const bool nt = (x & (x - 1)) != 0;
   uint64_t n = 0;
   if (x != 0) {
-    uint32_t want = ref_log2_desc(x, 63);
+    uint32_t want = ref_log2_desc(x, tophint);
     uint32_t g;
     if ((g = dd::log2(x)) != want) L.fail("detail::log2(uint64_t)", "u64", x, g, want);
-    if ((g = dd::log2const(x)) != want) L.fail("detail::log2const(uint64_t)", "u64", x, g, want);
-    int32_t cz = ref_ctz(x), gz;
+    int32_t cz = ref_ctz(x, lowhint), gz;
     if ((gz = dd::countTrailingZeros(x)) != cz) L.fail("detail::countTrailingZeros", "u64", x, (uint64_t)gz, (uint64_t)cz);
-    n += 3;
+    n += 2;
     if (deep) {
       uint32_t want2 = ref_log2_asc(x);
       if (want2 != want) L.fail("reference log2 (asc vs desc) disagree", "u64", x, want2, want);
+      if ((g = dd::log2const(x)) != want) L.fail("detail::log2const(uint64_t)", "u64", x, g, want);
       if ((g = dispenso::log2(x)) != want2) L.fail("dispenso::log2", "u64", x, g, want2);
       if ((g = dispenso::log2const(x)) != want2) L.fail("dispenso::log2const", "u64", x, g, want2);
       if ((g = dd::log2((unsigned long long)x)) != want2) L.fail("detail::log2<unsigned long long>", "u64", x, g, want2);
       if ((g = dd::log2const((unsigned long long)x)) != want2)
         L.fail("detail::log2const<unsigned long long>", "u64", x, g, want2);
-      n += 4;
+      n += 5;
     }
   }
   {
-    int32_t want = ref_pop(x, 64), g = dd::countSetBits(x);
+    int32_t want = deep ? ref_pop(x, 64)
+                        : (int32_t)g_pop16[x >> 48] + (int32_t)g_pop16[(x >> 32) & 0xffff] + (int32_t)g_pop16[(x >> 16) & 0xffff] +
+            (int32_t)g_pop16[x & 0xffff];
+    int32_t g = dd::countSetBits(x);
     if (g != want) L.fail("detail::countSetBits", "u64", x, (uint64_t)g, (uint64_t)want);
     n++;
   }
   if (x <= (1ull << 63)) { // documented domain of nextPow2: values up to 2^63 (the result must be representable)
-    uint64_t want = x ? ref_np2_desc(x, 63) : 0;
+    uint64_t want = x ? ref_np2_desc(x, tophint < 63 ? tophint + 1 : 63) : 0;
     uint64_t g = dd::nextPow2(x);
     if (g != want) L.fail("detail::nextPow2", "u64", x, g, want);
     n++;
@@ -275,7 +301,7 @@ static int do_replay(const char* path) {
     Local L;
     if (sscanf(line, "%31s", kind) != 1) continue;
     if (!strcmp(kind, "u32") && sscanf(line, "%*s %llx", &a) == 1) {
-      check32((uint32_t)a, true, L);
+      check32((uint32_t)a, true, true, L);
       printf("replay u32 0x%llx: %zu failing checks\n", a, L.fails.size());
     } else if (!strcmp(kind, "u64") && sscanf(line, "%*s %llx", &a) == 1) {
       check64(a, true, L);
@@ -303,6 +329,7 @@ int main(int argc, char** argv) {
     else if (!strcmp(argv[i], "--replay") && i + 1 < argc)
       replay = argv[++i];
   }
+  for (uint32_t i = 0; i < 65536; i++) g_pop16[i] = (uint8_t)ref_pop(i, 16);
   if (replay) return do_replay(replay);
 
   seq::Report rep;
@@ -315,20 +342,7 @@ int main(int argc, char** argv) {
   std::vector<Local> locals;
   uint64_t nontrivial = 0;
 
-  // ---- phase 1: all 2^32 32-bit inputs -------------------------------------------------------
-  // partition: thread t takes the 2^20-sized blocks b with b % NT == t  (4096 blocks)
-  run_parallel(NT, locals, [&](unsigned t, Local& L) {
-    for (uint64_t blk = t; blk < 4096; blk += NT) {
-      uint64_t lo = blk << 20, hi = lo + (1u << 20);
-      for (uint64_t v = lo; v < hi; v++) check32((uint32_t)v, thorough, L);
-      if (L.fails.size() >= 5) break;
-    }
-  });
-  merge(rep, locals, nontrivial);
-  rep.sample("{\"fn\":\"log2(uint32_t)/log2const(uint32_t)/ctz/popcount/nextPow2/alignToCacheLine\",\"v\":\"every v in [0,2^32)\"}");
-  rep.sample(seq::fmt("{\"fn\":\"nextPow2\",\"v\":\"0x80000001\",\"got\":\"0x%llx\"}", (unsigned long long)dd::nextPow2(0x80000001ull)));
-
-  // ---- phase 2: structured 64-bit set --------------------------------------------------------
+  // ---- the structured 64-bit set (built first: its 32-bit members are handed to phase 1) ------------
   std::vector<uint64_t> S;
   // every value with <= 3 set bits
   S.push_back(0);
@@ -370,28 +384,77 @@ int main(int argc, char** argv) {
   std::sort(S.begin(), S.end());
   S.erase(std::unique(S.begin(), S.end()), S.end());
   const size_t nS = S.size();
+  const size_t nLo = (size_t)(std::lower_bound(S.begin(), S.end(), 1ull << 32) - S.begin()); // members < 2^32
+  const uint64_t* const Sb = S.data();
+  const uint64_t* const Se = S.data() + nS;
+  // membership test for an ascending stream of queries
+  struct Cursor {
+    const uint64_t *p, *e;
+    bool hit(uint64_t x) {
+      while (p < e && *p < x) ++p;
+      return p < e && *p == x;
+    }
+  };
+
+  // ---- phase 1: all 2^32 32-bit inputs -------------------------------------------------------
+  // partition: thread t takes the 2^20-sized blocks b with b % NT == t  (4096 blocks)
   run_parallel(NT, locals, [&](unsigned t, Local& L) {
-    for (size_t i = t; i < nS; i += NT) check64(S[i], true, L);
+    for (uint64_t blk = t; blk < 4096; blk += NT) {
+      uint64_t lo = blk << 20, hi = lo + (1u << 20);
+      Cursor cur{std::lower_bound(Sb, Sb + nLo, lo), Sb + nLo}; // structured members inside this block
+      for (uint64_t v = lo; v < hi; v++) check32((uint32_t)v, thorough, cur.hit(v), L);
+      if (L.fails.size() >= 5) break;
+    }
   });
   merge(rep, locals, nontrivial);
-  rep.sample(seq::fmt("{\"fn\":\"all 64-bit functions\",\"structured_set_size\":%zu,\"example\":\"0x%llx\"}", nS,
-                      (unsigned long long)S[nS / 2]));
+  rep.sample("{\"fn\":\"log2(uint32_t)/log2(uint64_t)/ctz/popcount/nextPow2/alignToCacheLine\",\"v\":\"every v in [0,2^32)\"}");
+  rep.sample(seq::fmt("{\"fn\":\"nextPow2\",\"v\":\"0x80000001\",\"got\":\"0x%llx\"}", (unsigned long long)dd::nextPow2(0x80000001ull)));
+
+  // ---- phase 2: members >= 2^32 of the structured 64-bit set -----------------------------------
+  run_parallel(NT, locals, [&](unsigned t, Local& L) {
+    for (size_t i = nLo + t; i < nS; i += NT) check64(S[i], true, L);
+  });
+  merge(rep, locals, nontrivial);
+  rep.sample(seq::fmt("{\"fn\":\"all 64-bit functions\",\"structured_set_size\":%zu,\"of_which_below_2^32\":%zu,\"example\":\"0x%llx\"}",
+                      nS, nLo, (unsigned long long)S[nLo + (nS - nLo) / 2]));
 
   // ---- phase 3 (thorough): every 64-bit value whose set bits fit in a 32-bit window ----------------
   // {v << s : v < 2^32, 0 <= s <= 32}.  Canonical enumeration without repeats: s = 0 is phase 1; for s >= 1
-  // only v >= 2^31 (otherwise the same value appears as (2v, s-1)).
+  // only v >= 2^31 (otherwise the same value appears as (2v, s-1)).  Members of S were done in phase 2.
   uint64_t windowed = 0;
   if (thorough) {
     run_parallel(NT, locals, [&](unsigned t, Local& L) {
       for (uint64_t blk = t; blk < 2048; blk += NT) {
         uint64_t lo = (1ull << 31) + (blk << 20), hi = lo + (1u << 20);
-        for (uint64_t v = lo; v < hi; v++)
-          for (int s = 1; s <= 32; s++) check64(v << s, false, L);
+        for (int s = 1; s <= 32; s++) {
+          Cursor cur{std::lower_bound(Sb + nLo, Se, lo << s), Se};
+          for (uint64_t v = lo; v < hi; v++) {
+            uint64_t x = v << s;
+            if (!cur.hit(x)) check64(x, false, L, s, 31 + s);
+          }
+        }
         if (L.fails.size() >= 5) break;
       }
     });
     merge(rep, locals, nontrivial);
     windowed = 32ull << 31;
+    // phase 3b: log2const(uint64_t) with every 32-bit value in the upper word: x = v << 32, v in [1, 2^32)
+    run_parallel(NT, locals, [&](unsigned t, Local& L) {
+      for (uint64_t blk = t; blk < 4096; blk += NT) {
+        uint64_t lo = blk << 20, hi = lo + (1u << 20);
+        Cursor cur{std::lower_bound(Sb + nLo, Se, lo << 32), Se};
+        for (uint64_t v = lo ? lo : 1; v < hi; v++) {
+          uint64_t x = v << 32;
+          if (cur.hit(x)) continue; // done in phase 2
+          uint32_t want = ref_log2_desc(x, 63), g;
+          if ((g = dd::log2const(x)) != want) L.fail("detail::log2const(uint64_t)", "u64", x, g, want);
+          L.evals++;
+          if (v & (v - 1)) L.nontrivial++;
+        }
+        if (L.fails.size() >= 5) break;
+      }
+    });
+    merge(rep, locals, nontrivial);
   }
 
   // ---- phase 4: alignedMalloc / alignedFree --------------------------------------------------
@@ -449,17 +512,22 @@ int main(int argc, char** argv) {
 
   rep.distinct_overflow = nontrivial; // all cases are distinct by construction (see header comment)
   rep.domain = seq::fmt(
-      "32-bit: every v in [0,2^32) for log2(uint32_t), log2const(uint32_t) (v!=0) and, widened to 64 bit, log2(uint64_t), "
-      "log2const(uint64_t), countTrailingZeros (v!=0), countSetBits, nextPow2, alignToCacheLine%s; "
+      "32-bit: every v in [0,2^32) for log2(uint32_t) (v!=0) and, widened to 64 bit, log2(uint64_t), "
+      "countTrailingZeros (v!=0), countSetBits, nextPow2, alignToCacheLine; log2const(uint32_t) and log2const(uint64_t) for %s; "
       "64-bit: %zu distinct structured values = {<=3 set bits} u {2^k+d, |d|<=3} u {2^64-1-d, d<=3} u {b<<s : s in [0,63], "
       "b a 32-bit value with <=3 set or <=3 clear bits, or 2^k+d, or <2^16, or (<2^16)<<16, or ~(<2^16)}, with nextPow2 "
       "restricted to x<=2^63 and alignToCacheLine to x<=2^64-%llu%s; alignedMalloc/alignedFree (detail and public, one- and "
       "two-argument forms): alignment 2^0..2^16 x bytes {0,1,63,64,65,4097} x %d heap phases plus one batch of all 102 "
       "blocks live at once; references are loop-based scans (descending%s)",
-      thorough ? " plus the public dispenso:: wrappers and the unsigned-long-long template overloads" : "", nS,
+      thorough ? "every v in [1,2^32) too, plus the public dispenso:: wrappers and the unsigned-long-long template overloads of "
+                 "log2/nextPow2/alignToCacheLine on all 2^32 (those of log2const on v<2^24)"
+               : "every v in [1,2^26) and every 32-bit member of the structured set below (all 2^32 in the thorough tier; one call "
+                 "costs 20 ns under ASan so 2^32 calls of both overloads do not fit the 60 s budget on the loaded machine)",
+      nS,
       (unsigned long long)kL,
       thorough ? seq::fmt("; plus every 64-bit value whose set bits fit a 32-bit window, {v<<s: v in [2^31,2^32), s in [1,32]} "
-                          "= %llu further values (with phase 1 this is all of {v<<s : v<2^32, s<=32})",
+                          "= %llu further values, those in the structured set not repeated (with phase 1 this is all of {v<<s : v<2^32, s<=32}) for log2, countTrailingZeros, "
+                          "countSetBits, nextPow2, alignToCacheLine, and log2const(uint64_t) on every v<<32, v in [1,2^32)",
                           (unsigned long long)windowed)
                      .c_str()
                : "",
